@@ -167,6 +167,10 @@ def keysort(k):
         return Val
     if k.tag == "tuple":
         return tuple_sort([keysort(a) for a in k.args])[0]
+    if k.tag == "list" and k.args[0].tag in ("int", "str", "bool", "obj"):
+        # a tuple of scalars of symbolic length (Python: tuple(lst)) as a hashable value: (length, array).  Equality of keys is
+        # equality of both components, so the array must be NORMALISED (default value beyond the length): `tuple(list)` does that
+        return tuple_sort([I, z3.ArraySort(I, keysort(k.args[0]))])[0]
     raise TypeError("kind %r cannot be used as a key" % (k,))
 
 
@@ -174,6 +178,9 @@ def to_key(k, tree):
     if k.tag == "tuple":
         ts, mk, _ = tuple_sort([keysort(a) for a in k.args])
         return mk(*[to_key(a, t) for a, t in zip(k.args, tree)])
+    if k.tag == "list":
+        ts, mk, _ = tuple_sort([I, z3.ArraySort(I, keysort(k.args[0]))])
+        return mk(tree[0], tree[1])
     return tree
 
 
@@ -181,6 +188,9 @@ def from_key(k, term):
     if k.tag == "tuple":
         ts, mk, accs = tuple_sort([keysort(a) for a in k.args])
         return tuple(from_key(a, accs[i](term)) for i, a in enumerate(k.args))
+    if k.tag == "list":
+        ts, mk, accs = tuple_sort([I, z3.ArraySort(I, keysort(k.args[0]))])
+        return (accs[0](term), accs[1](term))
     return term
 
 
